@@ -673,11 +673,11 @@ def failrem_run(case, ctx):
 def stages(tier):
     return [
         {"name": "failrem", "kind": "hyp", "strategy": fail_strategy, "run": failrem_run,
-         "examples": {"quick": 1500, "thorough": 60000}, "shards": 16},
+         "examples": {"quick": 1500, "thorough": 30000}, "shards": 16},
         {"name": "hist", "kind": "hyp", "strategy": hist_strategy, "run": hist_run,
-         "examples": {"quick": 4000, "thorough": 120000}, "shards": 16},
+         "examples": {"quick": 4000, "thorough": 60000}, "shards": 16},
         {"name": "optional", "kind": "hyp", "strategy": opt_strategy, "run": hist_run,
          "examples": {"quick": 4000, "thorough": 60000}, "shards": 16},
         {"name": "fail", "kind": "hyp", "strategy": fail_strategy, "run": fail_run,
-         "examples": {"quick": 2000, "thorough": 80000}, "shards": 16},
+         "examples": {"quick": 2000, "thorough": 40000}, "shards": 16},
     ]
